@@ -579,4 +579,91 @@ var Shapes = []func(b *B){
 			})
 		}
 	},
+	// 12: two defined fragments spread side by side (at the root or below a field); each
+	// may spread a further fragment - the other one, itself, or an undefined one - directly
+	// or inside an inline fragment
+	func(b *B) {
+		pair := func() {
+			b.p(hparse.KSpread)
+			b.n("FA")
+			b.p(hparse.KSpread)
+			b.n("FB")
+		}
+		onType := "Query"
+		if b.altN("where", 2) == 1 {
+			onType = "Obj"
+			b.braces(func() { b.n("o"); b.braces(pair) })
+		} else {
+			b.braces(pair)
+		}
+		inner := func(field string) {
+			b.n(field)
+			switch b.alt(3) {
+			case 0:
+			case 1:
+				b.p(hparse.KSpread)
+				b.pick("FA", "FB", "FC")
+			case 2:
+				b.p(hparse.KSpread)
+				b.ns("on", onType)
+				b.braces(func() { b.p(hparse.KSpread); b.pick("FA", "FB", "FC") })
+			}
+		}
+		b.ns("fragment", "FA", "on", onType)
+		b.braces(func() { inner("a") })
+		b.ns("fragment", "FB", "on", onType)
+		b.braces(func() { inner("s") })
+	},
+	// 13: one argument position used twice in a document, with a defaulted and a plain
+	// variable, literals, null, or left out
+	func(b *B) {
+		b.ns("query", "Q")
+		b.p(hparse.KParenL, hparse.KDollar)
+		b.n("v")
+		b.p(hparse.KColon)
+		b.n("Int")
+		b.p(hparse.KEquals)
+		b.lit(hparse.KInt, "1")
+		b.p(hparse.KDollar)
+		b.n("u")
+		b.p(hparse.KColon)
+		b.n("Int")
+		b.p(hparse.KBang) // non-null: usable at r, so that documents using both variables are valid
+		b.p(hparse.KParenR)
+		b.braces(func() {
+			for _, alias := range []string{"x", "y"} {
+				b.n(alias)
+				b.p(hparse.KColon)
+				b.n("q")
+				switch b.alt(5) {
+				case 0: // argument left out
+				case 1:
+					b.p(hparse.KParenL)
+					b.n("r")
+					b.p(hparse.KColon, hparse.KDollar)
+					b.n("v")
+					b.p(hparse.KParenR)
+				case 2:
+					b.p(hparse.KParenL)
+					b.n("r")
+					b.p(hparse.KColon, hparse.KDollar)
+					b.n("u")
+					b.p(hparse.KParenR)
+				case 3:
+					b.p(hparse.KParenL)
+					b.n("r")
+					b.p(hparse.KColon)
+					b.lit(hparse.KInt, "1")
+					b.p(hparse.KParenR)
+				case 4:
+					b.p(hparse.KParenL)
+					b.n("r")
+					b.p(hparse.KColon)
+					b.n("null")
+					b.p(hparse.KParenR)
+				}
+				b.braces(func() { b.n("a") })
+			}
+		})
+	},
 }
